@@ -253,7 +253,6 @@ fn compute_inner(tree: &mut impl LayoutBlockContainer, node_id: NodeId, inputs: 
     for order in 0..len {
         let child = tree.get_child_id(node_id, order);
         if tree.get_block_child_style(child).box_generation_mode() == BoxGenerationMode::None {
-            tree.set_unrounded_layout(child, &Layout::with_order(order as u32));
             tree.perform_child_layout(
                 child,
                 Size::NONE,
@@ -262,6 +261,9 @@ fn compute_inner(tree: &mut impl LayoutBlockContainer, node_id: NodeId, inputs: 
                 SizingMode::InherentSize,
                 Line::FALSE,
             );
+            // Set the order after the hidden layout (which zeroes the whole layout) so that it does not depend
+            // on whether the child's hidden layout was served from the cache
+            tree.set_unrounded_layout(child, &Layout::with_order(order as u32));
         }
     }
 
